@@ -60,6 +60,8 @@ REG(r6, "c06.n2s2k4", 2, dom::Sigma2(), 4, true, "dense members of TA(2,{a:0,b:0
 REG(r7, "c06.n2s3k4", 2, dom::Sigma3(), 4, true, "dense members of TA(2,{a:0,b:0,f:1,g:2},<=4), all registration orders")
 REG(r8, "c06.n3agk3", 3, dom::SigmaAG(), 3, true, "dense members of TA(3,{a:0,g:2},<=3), all registration orders")
 REG(r9, "c06.n2s2k5", 2, dom::Sigma2(), 5, true, "dense members of TA(2,{a:0,b:0,g:2},<=5), all registration orders")
+REG(r10, "c06.n2ahk3", 2, dom::SigmaAH(), 3, true, "dense members of TA(2,{a:0,h:3},<=3), private alphabet (ternary symbol)")
+REG(r11, "c06.n2afhk3", 2, dom::SigmaAFH(), 3, true, "dense members of TA(2,{a:0,f:1,h:3},<=3), private alphabet, all registration orders")
 REG(s1, "c06.sparse.n2s2k3", 2, dom::Sigma2(), 3, false, "NON-dense members (state 0 unused) of TA(2,{a:0,b:0,g:2},<=3)")
 
 }  // namespace c06
